@@ -106,6 +106,20 @@ func init() {
 	intrinsics["fmt.Println"] = noopIO
 	intrinsics["fmt.Print"] = noopIO
 
+	itoa := func(fr *frame, args []value) value {
+		if len(args) > 1 && asInt64(args[1]) != 10 {
+			c := fr.i.concretize(args[0])
+			k, _ := kindOf(c)
+			if kindSigned(k) {
+				return strconv.FormatInt(asInt64(c), int(asInt64(args[1])))
+			}
+			return strconv.FormatUint(uint64(asInt64(c)), int(asInt64(args[1])))
+		}
+		return mkStr(fr.i.decimal(args[0]))
+	}
+	intrinsics["strconv.Itoa"] = itoa
+	intrinsics["strconv.FormatInt"] = itoa
+	intrinsics["strconv.FormatUint"] = itoa
 	intrinsics["errors.Is"] = func(fr *frame, args []value) value {
 		return fr.i.errorsIs(fr, args[0].(iface), args[1].(iface))
 	}
